@@ -84,10 +84,17 @@ func attachPortHooks(env *simx.Env) *countHook {
 
 type engineHook struct{ before, after int }
 
+// engineHookHorizon bounds a hooked run by its number of events (an unhooked
+// run is bounded in simulated time only, see runBounded).
+const engineHookHorizon = 400000
+
 func (h *engineHook) Func(ctx hooking.HookCtx) {
 	switch ctx.Pos {
 	case timing.HookPosBeforeEvent:
 		h.before++
+		if h.before > engineHookHorizon {
+			panic("HORIZON: more than 400000 events under the engine hook")
+		}
 	case timing.HookPosAfterEvent:
 		h.after++
 	}
